@@ -31,6 +31,9 @@ type features struct {
 	// load) has another source register that a younger instruction rewrites
 	// within 8 executed instructions
 	warAfterLoadUse bool
+	// memBaseWrittenRecently: a load/store whose base register was written
+	// within the 10 executed instructions before it
+	memBaseWrittenRecently bool
 	// loadBeforeRedirect: a load is followed within 16 executed instructions by a redirect
 	loadBeforeRedirect bool
 	// memBeforeRedirect: any load/store followed within 24 executed instructions by a redirect
@@ -109,6 +112,9 @@ func featuresOf(c *core.Case) *features {
 			isRedirect = true
 		}
 		if in.Op.IsLoad() || in.Op.IsStore() {
+			if pos, ok := lastWrite[in.Rs1]; ok && i-pos <= 10 {
+				f.memBaseWrittenRecently = true
+			}
 			line := st.Addr >> 6
 			lines[line] = true
 			for _, a := range accs {
